@@ -73,12 +73,15 @@ var gnoRules = rules(
 	`^runtime error: index out of range`, "index-out-of-range",
 	`^runtime error: nil slice index \(out of bounds\)`, "index-out-of-range",
 	`^runtime error: slice index out of bounds`, "index-out-of-range",
+	`^runtime error: invalid slice index -\d+ \(index must be non-negative\)`, "negative-index",
 	`^runtime error: invalid slice index`, "slice-bounds",
 	`^runtime error: slice bounds out of range`, "slice-bounds",
 	`^runtime error: nil pointer dereference`, "nil-deref",
 	`^runtime error: invalid memory address or nil pointer dereference`, "nil-deref",
 	`^runtime error: call of nil function`, "nil-deref",
 	`^runtime error: method selector on nil interface`, "nil-deref",
+	`^runtime error: defer called a nil function`, "nil-deref",
+	`^value method .* called using nil \*\S+ pointer`, "nil-deref",
 	` is not of type `, "type-assertion",
 	` doesn't implement `, "type-assertion",
 	`^interface conversion: `, "type-assertion",
@@ -284,6 +287,13 @@ func compare(goOut, gnoOut []string) *diff {
 		if m := markRe.FindStringSubmatch(a); m != nil && a == b {
 			cur, _ = strconv.Atoi(m[1])
 			tag = m[2]
+		}
+		if a != b && strings.Contains(b, "ERR<negative-index>") {
+			// Gno words every negative index (index expression or slice expression, on strings too)
+			// as "invalid slice index -N (index must be non-negative)": accepted for either bounds class.
+			if a == strings.ReplaceAll(b, "ERR<negative-index>", "ERR<index-out-of-range>") || a == strings.ReplaceAll(b, "ERR<negative-index>", "ERR<slice-bounds>") {
+				continue
+			}
 		}
 		if a != b {
 			cat := "output"
